@@ -1,0 +1,58 @@
+//! Verification hooks (compiled only with `--cfg eigerco_lumina_verif`).
+//!
+//! Wrappers around the (crate-private) `HeaderCodec` and re-exports of the hooks of the
+//! `client` and `server` child modules, which are not reachable from the crate root otherwise.
+//! Nothing here changes the behaviour of the code it wraps.
+
+use std::io;
+
+use celestia_proto::p2p::pb::{HeaderRequest, HeaderResponse};
+use futures::{AsyncRead, AsyncWrite};
+use libp2p::StreamProtocol;
+use libp2p::request_response::Codec;
+
+use super::HeaderCodec;
+
+pub use super::client::verif_hooks::{decode_and_verify_responses, header_request_is_valid};
+pub use super::server::verif_hooks::{serve_request, server_max_headers_amount_response};
+
+fn protocol() -> StreamProtocol {
+    StreamProtocol::new("/verif/header-ex")
+}
+
+/// `HeaderCodec::read_request`
+pub async fn codec_read_request<T>(io: &mut T) -> io::Result<HeaderRequest>
+where
+    T: AsyncRead + Unpin + Send,
+{
+    HeaderCodec.read_request(&protocol(), io).await
+}
+
+/// `HeaderCodec::read_response`
+pub async fn codec_read_response<T>(io: &mut T) -> io::Result<Vec<HeaderResponse>>
+where
+    T: AsyncRead + Unpin + Send,
+{
+    HeaderCodec.read_response(&protocol(), io).await
+}
+
+/// `HeaderCodec::write_request`
+pub async fn codec_write_request<T>(io: &mut T, request: HeaderRequest) -> io::Result<()>
+where
+    T: AsyncWrite + Unpin + Send,
+{
+    HeaderCodec.write_request(&protocol(), io, request).await
+}
+
+/// `HeaderCodec::write_response`
+pub async fn codec_write_response<T>(io: &mut T, responses: Vec<HeaderResponse>) -> io::Result<()>
+where
+    T: AsyncWrite + Unpin + Send,
+{
+    HeaderCodec.write_response(&protocol(), io, responses).await
+}
+
+/// `(REQUEST_SIZE_LIMIT, RESPONSE_SIZE_LIMIT)` of the codec.
+pub fn codec_size_limits() -> (usize, usize) {
+    (super::REQUEST_SIZE_LIMIT, super::RESPONSE_SIZE_LIMIT)
+}
